@@ -9,7 +9,7 @@ TECH = "contract-based deductive verification: weakest-precondition-style VC gen
 CLAIMED = {
     "C01": dict(
         text="Proof, per function, of every Unpack implementation and of the two decoder entry points: all implicit runtime checks (index, slice, nil, make), consumed<=len(data) on success, no slice expression past len of an input-derived slice (confine), a decreasing variant for every loop, and the declared write frame; callers are checked against callee contracts. All inputs, lengths and capacities at once.",
-        note="Assumes: go/ssa semantics, 64-bit int, closed world of implementers, util.Logger==nil, error variables non-nil, assumed contracts for bytes.TrimRight / charmap Decoder.Bytes / fmt / errors. Socket receiver loops (serveUDPSocket/serveTCPSocket) are covered only once environment operations are modelled; see evidence 'outside_reach'.",
+        note="Assumes: go/ssa semantics, 64-bit int, closed world of implementers, util.Logger==nil, error variables non-nil, assumed contracts for bytes.TrimRight / charmap Decoder.Bytes / fmt / errors. The socket receiver loops (serveUDPSocket/serveTCPSocket) are among the functions under contract (no panic, every iteration that loops again has consumed stream bytes), against the assumed byte-stream contracts of net/bufio/io listed under C16.",
         ref="§3 C01"),
     "C15": dict(
         text="Proof, for every type the type checker finds implementing util.Packable (Size and Pack of all 31 implementers), util.PackString, knxnet.Pack and knxnet.AllocAndPack: no panic when len(buffer) >= Size(), only buffer[0:Size()) is written (frame check over the whole heap), and a relational two-run obligation that every byte of buffer[0:Size()) is independent of the buffer's previous content; header service/length fields and len(AllocAndPack(v)) == Size+6 as post-conditions.",
@@ -61,7 +61,7 @@ CLAIMED = {
         ref="§3 C13"),
     "C14": dict(
         text='Proof over the abstract length view of the retainer list: Router.Send retains exactly on success, never more than RetainCount (trimming from the front only), and sends exactly one RoutingInd carrying the message; resendLost removes min(k, retained) elements from the back and spawns exactly one sendMultiple with that many messages; sendMultiple sends them in slice order; serve hands each RoutingInd payload to pushInbound exactly once and closes inbound when the socket channel closes; checkRouterConfig yields RetainCount >= 1.',
-        note="Sequential model of the environment (DESIGN §2.4.5): knxnet.Socket, channels, goroutines, mutexes, timers and container/list are environment operations with ghost logs (send log per socket, sent/received count and last value per channel, held flag per mutex, ghost clock); select may take any case, receives may yield any well-typed value or 'closed'; loop-free goroutines are run to completion in place (assumed: eventually scheduled), long-running workers are logged and verified separately. Holds for every sequence of environment choices, NOT for interleavings with other goroutines touching the same state (that is C10), nor for liveness/wall-clock claims. List CONTENTS and order inside the retainer are not modelled (container/list is an assumed contract with a length view), so 'exactly the last k messages in their original order' is proved only up to counts and the back/front end used.",
+        note="Sequential model of the environment (DESIGN §2.4.5): knxnet.Socket, channels, goroutines, mutexes, timers and container/list are environment operations with ghost logs (send log per socket, sent/received count and last value per channel, held flag per mutex, ghost clock); select may take any case, receives may yield any well-typed value or 'closed'; loop-free goroutines are run to completion in place (assumed: eventually scheduled), long-running workers are logged and verified separately. Holds for every sequence of environment choices, NOT for interleavings with other goroutines touching the same state (that is C10), nor for liveness/wall-clock claims. List CONTENTS and order inside the retainer are not modelled (container/list is an assumed contract with a length view), so 'exactly the last k messages in their original order' is proved only up to counts and the back/front end used; a BOUNDED stand-in (C14RET) runs the real Router on a recording socket against a reference model of the retained window over 1,359 small histories (which messages, which order).",
         ref="§3 C14"),
     "C18": dict(
         text="Proof over the real code of cemi/address.go: the four component constructors place each component in its documented bit field and ignore bits outside its width (bit-vector post-conditions and equivalence lemmas, all 2^24 / 2^24 arguments at once); GroupAddr.String and IndividualAddr.String emit three decimal components holding exactly the 5/3/8 resp. 4/4/8 bit fields; NewGroupAddrString / NewIndividualAddrString return nil error IF AND ONLY IF the text has one, two or three separator-delimited components that strconv.Atoi accepts and whose values lie in the documented ranges and are not all zero, return exactly the composed address then and 0 otherwise (loop invariant over the component list, any number of components); lemma: every non-zero address survives String then parse.",
